@@ -88,7 +88,7 @@ def _check_own(ctx):
                 while owner.kind == "Closure" and owner.parent in prog.fns:
                     owner = prog.fns[owner.parent]
                 found.setdefault((role_name.get(owner.id, owner.name), m), []).append((fn, b))
-    ctx.floor("abort-inventory", "diverging call sites examined", n_div, 40)
+    ctx.floor("abort-inventory", "diverging call sites examined", n_div, 10)
     from . import poscontrol
     pp = poscontrol.prog()
     seen = {outer_macro(t) for f in pp.fns.values() if f.name == "abort_point" for b, t in f.calls() if t["target"] is None}
